@@ -37,6 +37,19 @@ CLAIMED = {
  "C12": dict(technique="stale-derived-value analysis, must-pass-through, rejection-set check",
    text="An index derived from MissingTransactions is never used after a call that may rewrite the list; completing a proposal on a backup ends in a PrepareResponse or a ChangeView; OnTransaction rejects deliveries only for the allowed reasons; RequestTx receives the missing list.",
    note="Not decided: double deliveries, deliveries for a previous view's proposal beyond the rejection set, timing against the view timer. " + A, ref="4/C12"),
+
+ "C09": dict(technique="sibling agreement (recovery builder/consumer), must-pass-through on enumerated paths",
+   text="Structural necessary conditions of recovery: the recovery message carries every evidence table (commits once the node has its own), the handler consumes every payload getter of the RecoveryMessage interface through OnReceive, LastChangeViewPayloads is refreshed on a view change, every admitted timeout says something or is an extension deferral and re-arms, a node with an own (pre)commit always answers a recovery request.",
+   note="Progress, bounds on the deciding view, partitions, restarts and the responder-window arithmetic need multi-node timed executions: not applicable to static analysis and not claimed. " + A, ref="4/C09"),
+ "C11": dict(technique="effect-free-prefix guard rule, index provenance with backward demand, optional-callback guards, stale-index analysis",
+   text="In each handler every effect site is behind that handler's admission condition (so inadmissible and duplicate inputs reach no effect); every index into a per-validator table is a range key, an admitted sender index, MyIndex under MyIndex>=0 or the primary index; optional callbacks only under their enabling fact; stored slots dereferenced only when non-nil; no stale derived index.",
+   note="Panic freedom is decided for table indexing, optional callbacks, stale indices and slot derefs only - not for nil results of application callbacks, type assertions in payload implementations, division by a zero increment, misuse before Start, Logger policies. Equality of the whole state on accepted-duplicate paths is not decided. " + A, ref="4/C11"),
+ "C15": dict(technique="symbolic final-value + path-condition check of the max idiom, affine normal form of the truncation, provenance",
+   text="On every non-declining path of the proposal builder Timestamp is the maximum of lastBlockTimestamp+TimestampIncrement and the truncated clock (decided from path conditions and the symbolic final value), the truncation has normal form (UnixNano(Timer.Now()) div I)*I, lastBlockTimestamp comes only from the initialiser's parameter, hashes/transactions are copied from the pool result index by index, NewPrepareRequest receives (Timestamp, Nonce, TransactionHashes), and the own block is rebuilt from those fields after every epoch write.",
+   note="Not decided: sanity of the clock reading, uniqueness of the nonce, uint64 overflow. " + A, ref="4/C15"),
+ "C16": dict(technique="guard rules and flag typestate on the dynamic-block-time paths",
+   text="Structural clauses only: subscription callback/MaxTimePerBlock only when configured; one subscription wrapper; flag cleared by request sends and epoch writes; declining builder is effect-free and declines only when configured, unforced and with an empty pool; no ChangeView for an idle backup on its first view-0 timeout; OnNewTransaction forces only while subscribed with the timer's epoch.",
+   note="Every timing clause (minimum spacing of proposals, 'only once the maximum elapsed', promptness) depends on numeric relations between durations, RTT and the clock: not applicable and not claimed. " + A, ref="4/C16"),
  "C13": dict(
    technique="all-paths guard analysis (path-condition algebra + backward demand over the resolved call graph)",
    text="Static all-paths rule G-SILENT: every call of Config.Broadcast, Block.Sign and PreBlock.SetData in package dbft is proven to be behind 'MyIndex>=0 and !Config.WatchOnly()' on every syntactic path from each of the six API entries; quantifies over every schedule/state because it quantifies over every path. This is the strongest decision a static argument gives for the silence clause.",
